@@ -105,7 +105,11 @@ void vh_ctx_clear_capture(vh_ctx_t * v);
 scpi_result_t vh_handler(scpi_t * context);
 /* called by vh_handler on entry (stage 0) and between the last parameter and the first result (stage 1): lets a check do what an
  * application may do inside a callback, e.g. run the parser of ANOTHER context (all library state is per context) */
-extern void (*vh_nested_hook)(scpi_t * context, int stage); /* generic instrumented handler */
+extern void (*vh_nested_hook)(scpi_t * context, int stage);
+/* called from inside the write / error callbacks of the capture interface: what an application does there (e.g. report a transport
+ * problem with SCPI_ErrorPushEx while the library is in the middle of a response) */
+extern void (*vh_on_write_cb)(scpi_t * context, const char * data, size_t len);
+extern void (*vh_on_error_cb)(scpi_t * context, int err); /* generic instrumented handler */
 /* second, unrelated context run on every n-th input call / handler entry (0 = off); see vh_scpi.c */
 void vh_decoy_enable(unsigned every);
 uint64_t vh_decoy_runs(void);
